@@ -333,7 +333,7 @@ def query(solver, enc, goal, model_vars=None, fallback_prelude=None):
     return res, model
 
 
-def standalone(prelude, enc, goal, model_vars=None, timeout_s=300):
+def standalone(prelude, enc, goal, model_vars=None, timeout_s=120):
     import tempfile
 
     body = "(set-logic ALL)\n" + prelude + "\n".join(enc.lines) + "\n(assert %s)\n(check-sat)\n" % goal
